@@ -44,6 +44,7 @@ class ProgramSession:
         self.ops = []
         self.failed = False
         self.twin = None
+        self.kept = []          # array arguments handed to operations: the caller's data too
         self.norm_x = self.norm_y = False
         self.w = None
         self.guard(self._construct)
@@ -164,7 +165,7 @@ class ProgramSession:
     def _do(self, op):
         self.ops.append(op)
         k = op["op"]
-        wo.apply_op(self.w, op)
+        wo.apply_op(self.w, op, self.kept)
         if k == "restore":
             ox, oy = self.w.get_original()
             self.twin = Weaver(np.array(ox).copy(), np.array(oy).copy())
@@ -190,6 +191,12 @@ class ProgramSession:
                               detail=dict(before=orig.tolist(), after=np.asarray(cur).tolist()))
             elif cur != orig:
                 self.fail(f"{when}: the caller's {nm} list was modified")
+        for label, cur, pristine in self.kept:
+            same = (np.array_equal(cur, pristine) and cur.dtype == pristine.dtype) if isinstance(pristine, np.ndarray) \
+                else cur == pristine
+            if not same:
+                self.fail(f"{when}: the array the caller passed as {label} was modified",
+                          detail=dict(before=np.asarray(pristine).tolist(), after=np.asarray(cur).tolist()))
         # stored original
         orig = self.w.get_original()
         if not (isinstance(orig, tuple) and len(orig) == 2):
@@ -214,6 +221,37 @@ class ProgramSession:
                         self.fail(f"{when}: after restore_original the object's {nm} differs from a freshly constructed "
                                   f"Weaver on get_original() given the same operations",
                                   detail=dict(restored=[_brief(t) for t in pa], fresh=[_brief(t) for t in pb]))
+
+    # -- read-only selectors -----------------------------------------------------------------------------------------------
+    def select(self, op):
+        self.guard(self._select, op)
+
+    def _select(self, op):
+        self.ops.append(op)
+        x, y = (np.array(a) for a in self.w.get())
+        self.seen_x = list(getattr(self, "seen_x", []))[-200:] + [float(v) for v in x[:50]]
+        i, j = op["i"], op["j"]
+        if op["how"] == "index":
+            got = self.w.slice_by_index(i, j + 1)
+            lo, hi = i, j
+        else:
+            if not (0 <= i <= j < len(x)) or float(x[i]) != op["start"] or float(x[j]) != op["stop"]:
+                return                      # replay on another tree: the recorded values are no samples here
+            kw = {}
+            if op["how"] != "value-open-start":
+                kw["start"] = op["start"]
+            if op["how"] != "value-open-stop":
+                kw["stop"] = op["stop"]
+            got = self.w.slice_by_value(**kw)
+            lo = 0 if op["how"] == "value-open-start" else i
+            hi = len(x) - 1 if op["how"] == "value-open-stop" else j
+        if not (isinstance(got, tuple) and len(got) == 2 and np.array_equal(np.asarray(got[0]), x[lo:hi + 1])
+                and np.array_equal(np.asarray(got[1]), y[lo:hi + 1])):
+            self.fail(f"{op['how']} selection [{op['start']!r}, {op['stop']!r}] does not return the samples "
+                      f"{lo}..{hi} of the current series", detail=dict(got=[np.asarray(a).tolist() for a in got][:1]))
+        if self.twin is not None and op["how"] != "index":
+            pass
+        self.check(f"after step {len(self.ops)} (select)")
 
     # -- rejected requests (C20) ------------------------------------------------------------------------------------------
     def reject(self, bad):
@@ -318,6 +356,8 @@ def replay(ctx, case, reject_mode=False):
     for op in case["ops"]:
         if op["op"] == "bad":
             sess.reject({k: v for k, v in op.items() if k != "op"})
+        elif op["op"] == "select":
+            sess.select(op)
         elif sess.admissible(op):
             sess.do(op)
         else:
@@ -446,7 +486,8 @@ def make_machine(ctx, with_rejects=False, max_ops=10):
                 n = data.draw(st.one_of(st.integers(2, 12), st.integers(2, min(MAXLEN, 2 * L + 3))))
                 self._try(dict(op="interpolate", n=n, new_x=None, method=method))
             else:
-                k = data.draw(st.integers(0, 20))
+                n_orig = len(self.sess.w.get_original()[0])
+                k = data.draw(st.one_of(st.integers(0, 20), st.just(max(0, n_orig - 2)), st.just(max(0, L - 2))))
                 fr = sorted(data.draw(st.lists(fl(0.001, 0.999), min_size=k, max_size=k, unique=True)))
                 nx = [float(x[0])] + [float(x[0] + f * (x[-1] - x[0])) for f in fr] + [float(x[-1])]
                 nx = [v for i, v in enumerate(nx) if i == 0 or v > nx[i - 1]]
@@ -471,6 +512,20 @@ def make_machine(ctx, with_rejects=False, max_ops=10):
         @rule()
         def restore(self):
             self._try(dict(op="restore"))
+
+        @rule(data=st.data())
+        def select(self, data):
+            """read-only selectors on the current series (they must see the current grid, whatever came before)"""
+            if len(self.sess.ops) >= max_ops:
+                return
+            x, y = self.sess.xy()
+            L = len(x)
+            if L < 2:
+                return
+            i = data.draw(st.integers(0, L - 1))
+            j = data.draw(st.integers(i, L - 1))
+            how = data.draw(st.sampled_from(["value", "value-open-start", "value-open-stop", "index"]))
+            self.sess.select(dict(op="select", how=how, i=i, j=j, start=float(x[i]), stop=float(x[j])))
 
         def teardown(self):
             if self.sess is not None and self.sess.w is not None:
@@ -593,9 +648,19 @@ def make_machine(ctx, with_rejects=False, max_ops=10):
             if L < 2:
                 return
             i = data.draw(st.integers(0, L - 2))
-            how = data.draw(st.sampled_from(["mid", "ulp", "outside-low", "outside-high"]))
-            v = {"mid": float(x[i] + 0.5 * (x[i + 1] - x[i])), "ulp": float(np.nextafter(x[i + 1], -np.inf)),
-                 "outside-low": float(x[0] - 1.0), "outside-high": float(x[-1] + 1.0)}[how]
+            how = data.draw(st.sampled_from(["mid", "ulp", "outside-low", "outside-high", "stale", "stale"]))
+            if how == "stale":
+                # a value that was a sample earlier in this history (or of the original series) but is none now
+                ox = [float(t) for t in self.sess.w.get_original()[0]] + list(getattr(self.sess, "seen_x", []))
+                cur = set(float(t) for t in x)
+                old = [t for t in ox if t not in cur]
+                if not old:
+                    return
+                v = old[data.draw(st.integers(0, len(old) - 1))]
+                ctx.count("slice-value:stale-sample")
+            else:
+                v = {"mid": float(x[i] + 0.5 * (x[i + 1] - x[i])), "ulp": float(np.nextafter(x[i + 1], -np.inf)),
+                     "outside-low": float(x[0] - 1.0), "outside-high": float(x[-1] + 1.0)}[how]
             if v in set(float(t) for t in x):
                 return
             if data.draw(st.booleans()):
